@@ -114,6 +114,8 @@ def call(e: Engine, n: ast.Call, st: State) -> SV:
         if name == "super" and name not in st.store:
             return SV(Ty("func"), None, tag=("super",))
     f = e.ev(n.func, st)
+    if f.ty.kind == "obj" and e.static_class(st, f) == "Partial":
+        return call_partial(e, st, f, [e.ev(a, st) for a in n.args])
     if f.ty.kind != "func":
         raise Unsupported(f"call of non-function value {ast.unparse(n.func)}")
     tag = f.tag
@@ -171,8 +173,28 @@ def call(e: Engine, n: ast.Call, st: State) -> SV:
         allkw = dict(pkw)
         allkw.update(kw)
         return inline_nested(e, st, fn, args, allkw)
+    if kind == "choice":
+        # (f if c else g)(...): both callees by contract, results merged
+        cnd, fa, fb = tag[1], tag[2], tag[3]
+        import copy
+        na, nb = copy.copy(n), copy.copy(n)
+        e.guards.append(cnd)
+        ra = call_func_sv(e, st, fa, args, kw, n)
+        e.guards[-1] = Not(cnd)
+        rb = call_func_sv(e, st, fb, args, kw, n)
+        e.guards.pop()
+        return ite_sv(cnd, ra, rb)
     if kind == "metadata_ctor":
         raise Unsupported("self.Metadata(...) outside constructor model")
+    raise Unsupported(f"call of {tag}")
+
+
+def call_func_sv(e: Engine, st: State, f: SV, args, kw, n) -> SV:
+    tag = f.tag
+    if tag[0] == "func":
+        return finish_call(e, st, tag[1], args, kw, n, list(n.args))
+    if tag[0] == "bound":
+        return method(e, st, tag, args, kw, n)
     raise Unsupported(f"call of {tag}")
 
 
@@ -222,6 +244,38 @@ def apply_def(e: Engine, st: State, name: str, lam: ast.Lambda, args: List[SV]) 
         st.defs_assumed.add(key)
         st.pc.append(ax)
     return SV(BOOL, f(*[a.v for a in args]))
+
+
+def call_partial(e: Engine, st: State, p: SV, args: List[SV]) -> SV:
+    """Call a functools.partial of one of the function's nested defs: the nested def bodies (single returns) are
+    inlined from the AST, selected by the stored function code."""
+    e.may_raise("TypeError", p.none, "call-none")
+    names = sorted(e.nested_defs) if e.nested_defs else sorted(getattr(e, "partial_defs", {}))
+    defs = e.nested_defs if e.nested_defs else getattr(e, "partial_defs", {})
+    fn = e.load_field(st, p, "fn")
+    kw0 = e.load_field(st, p, "kw0")
+    out = None
+    for idx, nm in enumerate(names):
+        node = defs[nm]
+        params = [a.arg for a in node.args.args]
+        kwname = params[len(args)] if len(params) > len(args) else None
+        r = inline_nested_node(e, st, node, args, {kwname: kw0} if kwname else {})
+        out = r if out is None else ite_sv(fn.v == idx, r, out)
+    return out
+
+
+def inline_nested_node(e: Engine, st: State, node, args, kw) -> SV:
+    body = [b for b in node.body if not (isinstance(b, ast.Expr) and isinstance(b.value, ast.Constant))]
+    if len(body) != 1 or not isinstance(body[0], ast.Return):
+        raise Unsupported(f"nested def {node.name} is not a single return")
+    params = [a.arg for a in node.args.args]
+    env = dict(zip(params, args))
+    env.update(kw)
+    e.lambda_env.append(env)
+    try:
+        return e.ev(body[0].value, st)
+    finally:
+        e.lambda_env.pop()
 
 
 def inline_nested(e: Engine, st: State, name: str, args, kw) -> SV:
@@ -381,9 +435,21 @@ def builtin(e: Engine, st: State, name: str, args: List[SV], kw: Dict[str, SV], 
         return SV(Ty("enum"), xs)
     if name == "partial":
         f = args[0]
-        if f.tag[0] == "nested":
-            return SV(Ty("func"), None, tag=("partial", f.tag[1], kw))
-        raise Unsupported("partial of non-nested function")
+        if f.tag[0] != "nested":
+            raise Unsupported("partial of non-nested function")
+        # functools.partial(nested_def, **kw): a callable object remembering which nested def and the keyword values
+        names = sorted(e.nested_defs)
+        o = e.new_obj(st, "Partial", base="partial")
+        saved = e.pending_raises
+        e.pending_raises = []
+        e.store_field(st, o, "fn", SV(INT, I(names.index(f.tag[1]))))
+        kws = sorted(kw)
+        if len(kws) > 1:
+            raise Unsupported("partial with more than one keyword")
+        if kws:
+            e.store_field(st, o, "kw0", kw[kws[0]])
+        e.pending_raises = saved
+        return o
     if name == "id":
         return SV(INT, obj_id(args[0].v))
     if name == "hash":
@@ -946,6 +1012,11 @@ def call_with_starstar(e, st, f, n, args):
 
 def construct(e: Engine, st: State, cls: str, args, kw, n) -> SV:
     q = f"{e.repo.classes[cls].module}.{cls}.__init__"
+    if q in e.reg.contracts and q in e.repo.funcs:
+        # a hand-written __init__: allocate the object and call the initialiser by its contract
+        o = e.new_obj(st, cls, base=f"new_{cls}")
+        finish_call(e, st, q, [o] + args, kw, n, [None] + list(n.args))
+        return o
     if q in e.reg.contracts:
         return finish_call(e, st, q, args, kw, n, list(n.args))
     mro = e.repo.mro(cls)
